@@ -126,6 +126,20 @@ def run(ctx):
                                    ("kids/any() and {}", "kids/any() and {}")):
                 rel_cmp[wrap_a.format(applied)] = wrap_s.format(spec)
         judge_db(ctx, db, "p", "P", list(rel_cmp), tally, viol, spec_of=rel_cmp)
+        # a lambda COMPARED with a Boolean literal (eq / ne x true / false x either side), alone, under and / or / not and inside another lambda's body: a lambda is
+        # two-valued, so `L eq true` and `L ne false` denote L, `L eq false` and `L ne true` denote not L
+        lam_cmp = {}
+        for L in ("kids/any()", "kids/any(k: k/x eq 2)", "kids/all(k: k/x eq 2)", "tags/any(t: t/label eq 'l')", "tags/all(t: t/label ne 'm')", "o/ps/any(q: q/a gt 0)"):
+            for form, pos in (("{} eq true", True), ("{} ne false", True), ("{} eq false", False), ("{} ne true", False), ("true eq {}", True), ("false ne {}", True),
+                              ("false eq {}", False), ("true ne {}", False), ("{} eq TRUE", True), ("{} ne False", True)):
+                applied, spec = form.format(L), (L if pos else f"not ({L})")
+                lam_cmp[applied] = spec
+                for wrap in ("not ({})", "({}) and a gt 0", "a eq 2 or ({})"):
+                    lam_cmp[wrap.format(applied)] = wrap.format(spec)
+        for form, pos in (("{} ne false", True), ("{} eq false", False), ("false ne {}", True), ("{} eq true", True)):
+            inner = "q/kids/any(k: k/x eq 2)"
+            lam_cmp["o/ps/any(q: " + form.format(inner) + ")"] = "o/ps/any(q: " + (inner if pos else f"not ({inner})") + ")"
+        judge_db(ctx, db, "p", "P", list(lam_cmp), tally, viol, spec_of=lam_cmp)
         judge_db(ctx, db, "k", "K", ["p eq null", "p eq 3", "null ne o", "p/o eq null", "p/o eq 1 or o eq 4", "p/dept eq 10"], tally, viol,
                  spec_of={"p eq null": "p_id eq null", "p eq 3": "p_id eq 3", "null ne o": "o_id ne null", "p/o eq null": "p/o_id eq null", "p/o eq 1 or o eq 4": "p/o_id eq 1 or o_id eq 4",
                           "p/dept eq 10": "p/dn eq 10"})
